@@ -52,6 +52,8 @@ def prim_of(t):
             return ('w', 'bytes', m)
         if m == 'push' and n.startswith('alloc::vec::Vec'):
             return ('w', 'push', m)
+        if m == 'put_bytes' and 'BufMut' in n:
+            return ('w', 'fill', m)       # put_bytes(value, count): `count` times the same byte
         if m in ('copy_to_slice', 'read_exact', 'copy_to_bytes') and ('Buf::' in n or 'AsyncReadExt' in n or 'io::Read' in n):
             return ('r', 'bytes', m)
         if m == 'advance' and 'Buf::' in n:
